@@ -1,4 +1,7 @@
-(** Wire entry points of property C17: parsing state chain + reader script. *)
+(** Wire entry points of property C17: parsing state chain + reader script
+    (every sub value except 3, as before), and sub 3 (wire id 1703): base fields,
+    one parsing-state DELTA object of any nesting ([Tok/Delta.v]), reader script. *)
 From Coq Require Import ZArith List.
-From PLV Require Import Base.Wire Tok.TokWire.
-Definition entry (sub : Z) (inp : list Z) : list Z := entry_tok inp.
+From PLV Require Import Base.Wire Tok.TokWire Tok.Delta.
+Definition entry (sub : Z) (inp : list Z) : list Z :=
+  if Z.eqb sub 3 then entry_delta inp else entry_tok inp.
